@@ -37,8 +37,12 @@ def elf_gen_spec(rnd, machine=None, cls64=None, be=None, page=0x1000, loader=Fal
     for k in range(nseg):
         filesz = rnd.randrange(1, 0x300) if rnd.random() < 0.8 else rnd.randrange(0x1000, 0x1800)
         memsz = filesz + ([0, 0, 0x10, 0x200, 0x1300][rnd.randrange(5)])
-        mode = rnd.randrange(4)
-        if mode == 0:  # page aligned
+        mode = rnd.randrange(5)
+        if mode == 4 and segs and segs[-1]["type"] == PT_LOAD:
+            # exactly abutting the previous segment, in the file and in memory (one linker output section split in two)
+            segs[-1]["memsz"] = segs[-1]["filesz"]
+            va = segs[-1]["vaddr"] + segs[-1]["filesz"]
+        elif mode == 0 or mode == 4:  # page aligned
             off = (off + page - 1) & ~(page - 1)
             va = (vaddr + page - 1) & ~(page - 1)
         elif mode == 1:  # unaligned, congruent modulo page
@@ -233,10 +237,15 @@ def hex_line(rtype, addr, data):
 def hex_gen(rnd):
     """list of records (type, addr, data) with correct payload sizes for their type"""
     recs = []
+    nxt = None
     for _ in range(rnd.randrange(1, 8)):
         k = rnd.random()
         if k < 0.6:
-            recs.append((0, rnd.getrandbits(16), bytes(rnd.getrandbits(8) for _ in range(rnd.randrange(1, 17)))))
+            # data records usually follow each other without a gap
+            a = nxt if (nxt is not None and nxt < 0xFFF0 and rnd.random() < 0.5) else rnd.getrandbits(16)
+            d = bytes(rnd.getrandbits(8) for _ in range(rnd.randrange(1, 17)))
+            recs.append((0, a, d))
+            nxt = a + len(d)
         elif k < 0.7:
             recs.append((2, 0, bytes(rnd.getrandbits(8) for _ in range(2))))
         elif k < 0.8:
@@ -258,10 +267,15 @@ def srec_line(rtype, addr, data):
 
 def srec_gen(rnd):
     recs = [(0, 0, b"HDR")]
+    nxt = None
     for _ in range(rnd.randrange(1, 7)):
         t = [1, 2, 3][rnd.randrange(3)]
         alen = {1: 2, 2: 3, 3: 4}[t]
-        recs.append((t, rnd.getrandbits(8 * alen), bytes(rnd.getrandbits(8) for _ in range(rnd.randrange(1, 17)))))
+        # data records usually follow each other without a gap
+        a = nxt if (nxt is not None and nxt < 0xFFF0 and rnd.random() < 0.5) else rnd.getrandbits(8 * alen)
+        d = bytes(rnd.getrandbits(8) for _ in range(rnd.randrange(1, 17)))
+        recs.append((t, a, d))
+        nxt = a + len(d)
     t = [9, 8, 7][rnd.randrange(3)]
     recs.append((t, rnd.getrandbits(8 * {9: 2, 8: 3, 7: 4}[t]), b""))
     return recs
